@@ -13,6 +13,7 @@ ORDER    core pipeline order: inline < replacements, smartquotes < text_join.
 from __future__ import annotations
 
 import ast
+from typing import Any
 
 from ..cfg import CFG, Node
 from ..core import AnchorError, Func, U, own_nodes
@@ -396,8 +397,20 @@ def rule_typo(c: Ctx) -> RuleResult:
                 ok_rep = True
             else:
                 ds = rd.at_ast(call, rep.id)
-                ok_rep = bool(ds) and all(d.kind == "assign" and d.value is not None and option_read_key(d.value.value if isinstance(d.value, ast.Subscript) else d.value) == "quotes"
-                                          for d in ds)
+
+                def quotes_read(v: ast.AST | None, at: ast.AST | None, depth: int = 0) -> bool:
+                    if v is None:
+                        return False
+                    b = v.value if isinstance(v, ast.Subscript) else v
+                    if option_read_key(b) == "quotes":
+                        return True
+                    if isinstance(b, ast.Name) and at is not None and depth < 2:
+                        # quotes = state.md.options.quotes; openQuote = quotes[k]
+                        ds2 = rd.at_ast(at, b.id)
+                        return bool(ds2) and all(d2.kind == "assign" and quotes_read(d2.value, d2.stmt, depth + 1) and not isinstance(d2.value, ast.Subscript)
+                                                 for d2 in ds2)
+                    return False
+                ok_rep = bool(ds) and all(d.kind == "assign" and quotes_read(d.value, d.stmt) for d in ds)
         r.add(f"replaceAt|call|{alpha(pi, call)[:60]}|rep", c.where(pi, call), pi.short, U(call)[:80], "discharged" if ok_rep else "violation",
               "the replacement is the apostrophe or one of the configured quote strings" if ok_rep else
               f"replaceAt is called with replacement `{U(rep) if rep is not None else '?'}`, which is neither APOSTROPHE nor options.quotes[i]")
@@ -594,6 +607,83 @@ def _yield_guards(c: Ctx, f: Func, recv: ast.AST) -> list[tuple[Func, ast.AST, o
     return None
 
 
+def _stack_entry_guard(c: Ctx, f: Func, recv: ast.AST, cfg: CFG, res: dict) -> str:
+    """recv is `tokens[<record>.<field>]` (directly or through a single-definition local) where the record comes from a local
+    stack whose entries are only appended under a `type == 'text'` guard, with that field holding the index of the guarded
+    token.  -> reason ('' = not this shape)."""
+    e = recv
+    if isinstance(e, ast.Name):
+        ds = [n_.value for n_ in own_nodes(f.node) if isinstance(n_, ast.Assign) and any(isinstance(t, ast.Name) and t.id == e.id for t in n_.targets)]
+        if len(ds) != 1:
+            return ""
+        e = ds[0]
+    if not (isinstance(e, ast.Subscript) and not isinstance(e.slice, ast.Slice)):
+        return ""
+    idx = e.slice
+    field: Any = None
+    rec: ast.AST | None = None
+    if isinstance(idx, ast.Attribute):
+        field, rec = idx.attr, idx.value
+    elif isinstance(idx, ast.Subscript) and isinstance(idx.slice, ast.Constant):
+        field, rec = idx.slice.value, idx.value
+    if rec is None or not isinstance(rec, (ast.Name, ast.Subscript)):
+        return ""
+    # the stack the record comes from
+    stack_name = None
+    if isinstance(rec, ast.Subscript) and isinstance(rec.value, ast.Name):
+        stack_name = rec.value.id
+    elif isinstance(rec, ast.Name):
+        srcs = c.eff.binding_sources(f, rec.id)
+        names = set()
+        for s_ in srcs:
+            if isinstance(s_, ast.Subscript) and isinstance(s_.value, ast.Name):
+                names.add(s_.value.id)
+            elif isinstance(s_, ast.Name):
+                names.add(s_.id)
+            else:
+                return ""
+        if len(names) == 1:
+            stack_name = next(iter(names))
+    if stack_name is None:
+        return ""
+    apps = [x for x in own_nodes(f.node) if isinstance(x, ast.Call) and isinstance(x.func, ast.Attribute) and x.func.attr == "append"
+            and isinstance(x.func.value, ast.Name) and x.func.value.id == stack_name and x.args]
+    if not apps:
+        return ""
+    # field order of a record class (NamedTuple) for positional / index access
+    def field_value(x: ast.AST) -> ast.AST | None:
+        if isinstance(x, ast.Dict):
+            return next((v for k, v in zip(x.keys, x.values) if isinstance(k, ast.Constant) and k.value == field), None)
+        if isinstance(x, ast.Call) and isinstance(x.func, ast.Name):
+            for k in x.keywords:
+                if k.arg == field:
+                    return k.value
+            ci = c.p.classes.get(x.func.id) if hasattr(c.p, "classes") else None
+            order = [s_.target.id for s_ in ci.node.body if isinstance(s_, ast.AnnAssign) and isinstance(s_.target, ast.Name)] if ci is not None else []
+            if isinstance(field, str) and field in order and order.index(field) < len(x.args):
+                return x.args[order.index(field)]
+            if isinstance(field, int) and field < len(x.args):
+                return x.args[field]
+            if isinstance(field, int) and order and field < len(order):
+                return next((k.value for k in x.keywords if k.arg == order[field]), None)
+            return None
+        if isinstance(x, ast.Tuple) and isinstance(field, int) and field < len(x.elts):
+            return x.elts[field]
+        return None
+    for a in apps:
+        fv = field_value(a.args[0])
+        if not isinstance(fv, ast.Name):
+            return ""
+        guarded = False
+        for cn in cfg.owner(a):
+            z = res.get(cn.id)
+            if z is not None and any(t.endswith(".type == 'text'") and p for (t, p) in z.preds):
+                guarded = True
+        if not guarded:
+            return ""
+    return "stack entries are recorded only for the current token under its type == 'text' guard, and the token is looked up by the recorded index"
+
+
 def _text_guard(c: Ctx, f: Func, n: ast.AST, recv: ast.AST, cfg: CFG, res: dict, _depth: int = 0) -> tuple[bool, str]:
     rt = U(recv)
     yg = _yield_guards(c, f, recv)
@@ -613,6 +703,10 @@ def _text_guard(c: Ctx, f: Func, n: ast.AST, recv: ast.AST, cfg: CFG, res: dict,
             break
     if good:
         return True, f"dominated by {rt}.type == 'text'"
+    # tokens[item.token] / tokens[item[0]] / through a local alias (`opener = tokens[item.token]`): records of the quote stack
+    g_ok = _stack_entry_guard(c, f, recv, cfg, res)
+    if g_ok:
+        return True, g_ok
     # tokens[item["token"]]: entries of the quote stack are appended only under the text guard with the current index
     if isinstance(recv, ast.Subscript) and isinstance(recv.slice, ast.Subscript) and isinstance(recv.slice.slice, ast.Constant) \
             and recv.slice.slice.value == "token":
